@@ -366,7 +366,7 @@ func c11Exclusive() {
 	type call struct{ key, style, wait int }
 	calls := make([]call, nCall)
 	for i := range calls {
-		calls[i] = call{simrt.Draw(nKeys), simrt.Draw(6), simrt.DrawRange(0, 3)}
+		calls[i] = call{simrt.Draw(nKeys), simrt.Draw(7), simrt.DrawRange(0, 3)}
 	}
 	rl, rlCancel := context.WithCancel(bg)
 	defer rlCancel()
@@ -397,6 +397,23 @@ func c11Exclusive() {
 				e.StartAfter(c.key, fn, wait)
 			case 5:
 				o := <-e.CallWithOptions(bigbuff.ExclusiveKey(c.key), bigbuff.ExclusiveValue(fn), bigbuff.ExclusiveRateLimit(rl, 2*time.Microsecond))
+				if o != nil {
+					c11ReadAny(o.Result)
+				}
+			case 6:
+				// hedged work: two goroutines race to resolve, the first answer wins (resolve is documented
+				// as callable more than once; only the first call counts)
+				o := <-e.CallWithOptions(bigbuff.ExclusiveKey(c.key), bigbuff.ExclusiveWork(func(resolve func(interface{}, error)) {
+					var wg sync.WaitGroup
+					for h := 0; h < 2; h++ {
+						wg.Add(1)
+						go func() {
+							defer wg.Done()
+							resolve(fn())
+						}()
+					}
+					wg.Wait()
+				}))
 				if o != nil {
 					c11ReadAny(o.Result)
 				}
